@@ -174,6 +174,7 @@ Lemma ctor_else_spec st :
   let st' := ctor_else st in
   WF st' /\ ext (eG st) (eG st') /\ exists sc lv, pushed st st' sc /\ sc_comb sc = None /\
     (forall l, eLast st = Some l -> lv = V (eG st) l) /\
+    (exists l', sc_loe sc = Some l' /\ l' < length (eG st') /\ V (eG st') l' = lv) /\
     V (eG st') (sc_full sc) =
       match eStack st with
       | [] => cnot lv
@@ -196,6 +197,11 @@ Proof.
   split; auto. split; [eapply ext_trans; [exact E2|exact E]|].
   exists sc, (V G0 l). split; [unfold pushed; repeat split; auto|]. split; auto.
   split; [intros l0 Hl0; destruct (HL0 _ Hl0) as [-> ->]; reflexivity|].
+  split.
+  { exists l. split; [exact A9|]. pose proof (ext_length _ _ E) as LE. change (eG (set_G st G2)) with G2 in LE.
+    split; [rewrite L2 in LE; lia|].
+    apply V_ext; [|exact B0]. eapply ext_trans; [|exact E]. change (eG (set_G st G2)) with G2.
+    eapply ext_trans; apply ext_emit. }
   refine (eq_trans A10 _). simpl.
   assert (Hv : V G2 (length G1) = cnot (V G0 l)).
   { unfold G2. rewrite V_emit. simpl. change (getv (eval_all inp G1) (length G0)) with (V G1 (length G0)).
@@ -283,6 +289,19 @@ Proof.
         -- rewrite app_length; simpl; lia.
         -- eapply reads_ok_mono; [|exact H5]; lia.
     + simpl. split; [constructor; simpl; auto|]. split; [apply ext_refl|]. repeat split; auto; intros; congruence.
+Qed.
+
+(* the special case of the ELSE destructor: a nested scope changed m_lastCondition *)
+Lemma dtor_else_or st sc rest l cur :
+  WF st -> eStack st = sc :: rest -> sc_comb sc = None -> sc_loe sc = Some l ->
+  eLast st = Some cur -> cur <> l ->
+  exists orn, eLast (dtor st) = Some orn /\
+              V (eG (dtor st)) orn = cor (V (eG st) cur) (V (eG st) l).
+Proof.
+  intros Hw Hs Hc Hl Hcur Hne. unfold dtor. rewrite Hs, Hc, Hl, Hcur. simpl.
+  assert (Hb : Nat.eqb l cur = false) by (apply Nat.eqb_neq; congruence).
+  rewrite Hb. unfold get_last. rewrite Hcur. unfold emit. simpl.
+  eexists. split; [reflexivity|]. rewrite V_emit. reflexivity.
 Qed.
 
 Lemma leave_block_WF n st : WF st -> WF (leave_block n st).
